@@ -358,6 +358,8 @@ pub fn run(tier: Tier, shard: Shard, rep: &mut Report) {
          tie-group permutations); for n <= {} the same entries are also handed over as a lazy iterator under each of \
          4 size_hint answers (0,None) (0,Some(n)) (n/2,Some(n+3)) (n,None) x capacities 0..=n+1 and usize::MAX; \
          inputs of 20, 24, 33 and 64 entries (5 rank patterns x 5 flag patterns) at every capacity 0..=n+1; \
+         entries whose access bit is live (n <= 4, thorough 6: every pair of answers to the first and to later looks, both input orders, \
+         every capacity): exactly n - capacity evictions, nothing twice, classical for some reported flags; \
          plus enumerated large families (thorough). Non-trivial = n > capacity \
          and (a tie or an accessed entry is present). All cases are distinct by construction.",
         max_n, lazy_n
@@ -484,9 +486,129 @@ pub fn run(tier: Tier, shard: Shard, rep: &mut Report) {
     if shard.index == 0 {
         rep.sample(case_json(&[(1, true), (1, false), (0, true), (2, false)], 2));
     }
+    live_bits_section(tier, shard, rep);
+}
+
+/// An entry whose access bit is live (set or cleared by readers while the planner runs): the first look answers
+/// `first`, every later look `later`.
+struct Live {
+    id: u32,
+    rank: u64,
+    first: bool,
+    later: bool,
+    looks: std::cell::Cell<u32>,
+}
+
+impl Entry for Live {
+    type Rank = u64;
+    fn rank(&self) -> u64 {
+        self.rank
+    }
+    fn accessed(&self) -> bool {
+        let n = self.looks.get();
+        self.looks.set(n + 1);
+        if n == 0 {
+            self.first
+        } else {
+            self.later
+        }
+    }
+}
+
+/// Distinct ranks (so no tie question), every entry's bit possibly changing between two looks: the plan must still
+/// evict exactly max(0, n - capacity) entries, return every entry at most once, and be the classical result for flags
+/// each of which is one of the answers that entry gave.
+fn live_bits_section(tier: Tier, shard: Shard, rep: &mut Report) {
+    let max_n = if tier == Tier::Quick { 4usize } else { 6 };
+    let mut no = 0u64;
+    for n in 1..=max_n {
+        for code in 0..4u64.pow(n as u32) {
+            for reversed in [false, true] {
+                for capacity in 0..=n {
+                    no += 1;
+                    if !shard.mine(no) {
+                        continue;
+                    }
+                    let mut c = code;
+                    let answers: Vec<(bool, bool)> = (0..n)
+                        .map(|_| {
+                            let d = c % 4;
+                            c /= 4;
+                            (d & 1 == 1, d & 2 == 2)
+                        })
+                        .collect();
+                    let mut entries: Vec<Live> = (0..n).map(|i| Live { id: i as u32, rank: i as u64, first: answers[i].0, later: answers[i].1, looks: std::cell::Cell::new(0) }).collect();
+                    if reversed {
+                        entries.reverse();
+                    }
+                    rep.evaluations += 1;
+                    rep.states += 1;
+                    rep.transitions += 1;
+                    rep.traces += 1;
+                    rep.count("live_access_bit_cases", 1);
+                    let case = json!({"live_bits": answers.iter().map(|a| json!([a.0, a.1])).collect::<Vec<_>>(), "capacity": capacity, "reversed": reversed});
+                    let plan = std::panic::catch_unwind(std::panic::AssertUnwindSafe(|| Update::new(entries, capacity)));
+                    let plan = match plan {
+                        Ok(p) => p,
+                        Err(_) => {
+                            rep.violation("planner:panic", format!("n={} capacity={} with access bits changing between looks {:?}: planner panicked", n, capacity, answers), case);
+                            continue;
+                        }
+                    };
+                    let evict: Vec<u32> = plan.to_evict.iter().map(|e| e.id).collect();
+                    let moved: Vec<u32> = plan.to_move_back.iter().map(|e| e.id).collect();
+                    let mut seen = vec![0; n];
+                    for &i in evict.iter().chain(moved.iter()) {
+                        seen[i as usize] += 1;
+                    }
+                    let mut msg = None;
+                    if seen.iter().any(|&c| c > 1) {
+                        msg = Some("an entry appears twice in the plan".to_string());
+                    } else if evict.len() != n.saturating_sub(capacity) {
+                        msg = Some(format!("evicts {} entries, expected {}", evict.len(), n.saturating_sub(capacity)));
+                    } else {
+                        // classical result for some choice of one given answer per entry
+                        let varying: Vec<usize> = (0..n).filter(|&i| answers[i].0 != answers[i].1).collect();
+                        let mut explained = false;
+                        for pick in 0..(1u32 << varying.len()) {
+                            let order: Vec<(u32, bool)> = (0..n)
+                                .map(|i| {
+                                    let f = match varying.iter().position(|&v| v == i) {
+                                        Some(j) => {
+                                            if pick >> j & 1 == 1 {
+                                                answers[i].1
+                                            } else {
+                                                answers[i].0
+                                            }
+                                        }
+                                        None => answers[i].0,
+                                    };
+                                    (i as u32, f)
+                                })
+                                .collect();
+                            if classical(&order, capacity) == (evict.clone(), moved.clone()) {
+                                explained = true;
+                                break;
+                            }
+                        }
+                        if !explained {
+                            msg = Some(format!("plan (evict {:?}, move back {:?}) is not the classical result for any flags the entries reported", evict, moved));
+                        }
+                    }
+                    if let Some(m) = msg {
+                        rep.violation("planner:live-bits", format!("n={} capacity={} answers(first look, later looks)={:?} reversed={}: {}", n, capacity, answers, reversed, m), case);
+                    }
+                }
+            }
+        }
+    }
 }
 
 pub fn replay(case: &Value, rep: &mut Report) {
+    if case.get("live_bits").is_some() {
+        live_bits_section(Tier::Thorough, Shard { index: 0, count: 1 }, rep);
+        return;
+    }
     let (input, cap) = parse_case(case);
     let form = case["form"].as_u64().unwrap_or(0) as u8;
     record_form(rep, &input, cap, input.len() <= 8, form);
